@@ -35,11 +35,14 @@ func register(f *family) { families[f.name] = f }
 
 // An oracle checks a property statement directly on the real code.
 type oracleFailure struct {
-	Property string      `json:"property"`
-	What     string      `json:"what"`
-	Family   string      `json:"family,omitempty"`
-	Case     string      `json:"case,omitempty"`
-	Detail   interface{} `json:"detail,omitempty"`
+	Property string `json:"property"`
+	// Signature is the stable identifier of the KIND of failure; it is what
+	// known_findings.json entries are matched against.
+	Signature string      `json:"signature,omitempty"`
+	What      string      `json:"what"`
+	Family    string      `json:"family,omitempty"`
+	Case      string      `json:"case,omitempty"`
+	Detail    interface{} `json:"detail,omitempty"`
 }
 
 type oracleStats struct {
@@ -120,6 +123,31 @@ func main() {
 		cmdOracle(*prop, *seed, *n, *out)
 	case "coqcases":
 		cmdCoqCases(*in, *k, *out)
+	case "oracle-replay":
+		// -case is the JSON of an oracleFailure; failures that name a family
+		// and a case are re-executed on the real code
+		var f oracleFailure
+		if err := json.Unmarshal([]byte(*cs), &f); err != nil {
+			fmt.Fprintln(os.Stderr, "bad failure json:", err)
+			os.Exit(2)
+		}
+		fm := families[f.Family]
+		if fm == nil || f.Case == "" {
+			fmt.Println("not replayable by family case:", *cs)
+			os.Exit(2)
+		}
+		c, err := parseSx(f.Case)
+		if err != nil {
+			fmt.Fprintln(os.Stderr, "bad case:", err)
+			os.Exit(2)
+		}
+		obs := runGuarded(fm, c, 60*time.Second)
+		fmt.Println("case:    ", f.Case)
+		fmt.Println("expected:", f.Signature, f.What)
+		fmt.Println("observed:", obs)
+		if strings.HasPrefix(obs, "FAIL") || obs == "PANIC" || obs == "HANG" {
+			os.Exit(1)
+		}
 	case "families":
 		var names []string
 		for name := range families {
